@@ -10,10 +10,14 @@ let is_word_char c =
   (c >= 'a' && c <= 'z') || (c >= 'A' && c <= 'Z') || (c >= '0' && c <= '9') || c = '_' || c = '$'
 let is_digit c = c >= '0' && c <= '9'
 
-let tokens (s : string) : token list =
+(* problem-level tokens: formula tokens plus '.', '*' and '>' (statement end, type products/arrows) *)
+type ptoken = T of token | Dot | Star | Gt
+
+let ptokens (s : string) : ptoken list =
   let n = String.length s in
   let out = ref [] in
-  let push t = out := t :: !out in
+  let pushp t = out := t :: !out in
+  let push t = pushp (T t) in
   let i = ref 0 in
   let starts p = let l = String.length p in !i + l <= n && String.sub s !i l = p in
   while !i < n do
@@ -43,8 +47,13 @@ let tokens (s : string) : token list =
        | '(' -> push KLPar | ')' -> push KRPar | '[' -> push KLBrack | ']' -> push KRBrack
        | ',' -> push KComma | ':' -> push KColon | '~' -> push KNot | '&' -> push KAnd
        | '|' -> push KOr | '=' -> push KEq | '!' -> push KAll | '?' -> push KEx
+       | '.' -> pushp Dot | '*' -> pushp Star | '>' -> pushp Gt
        | c -> raise (Lex_error (Printf.sprintf "illegal character %C at %d" c !i)));
       incr i
     end
   done;
   List.rev !out
+
+(* formula-level lexer: no '.', '*', '>' *)
+let tokens (s : string) : token list =
+  List.map (function T t -> t | _ -> raise (Lex_error "'.', '*' or '>' inside a formula")) (ptokens s)
